@@ -374,6 +374,28 @@ def eval_cases_mode(path: str) -> int:
     warnings.simplefilter("ignore")
     with open(path, encoding="utf-8") as fp:
         doc = json.load(fp)
+    if doc.get("listing_seed") is not None:
+        # "every process" includes processes whose file system lists the registry directories in another order:
+        # serve the real bundled files through the simulated storage with a shuffled listing
+        from sim import simfs
+
+        src = core.install_tree()
+        fs = simfs.SimFS()
+        rnd = random.Random(doc["listing_seed"])
+        for d in ("iban_registry", "bank_registry"):
+            real = os.path.join(src, "schwifty", d)
+            files = {}
+            for n in sorted(os.listdir(real)):
+                full = os.path.join(real, n)
+                if os.path.isfile(full):
+                    with open(full, "rb") as fh:
+                        files[n] = fh.read()
+            order = list(files)
+            rnd.shuffle(order)
+            fs.set_dir(d, files, order)
+        for alias in (os.path.join(src, "schwifty"), os.path.realpath(os.path.join(src, "schwifty"))):
+            simfs.ALIASES.append(alias)
+        simfs.install(fs)
     core.import_tree(core.install_tree())
     out = {}
     for case in doc["cases"]:
@@ -384,7 +406,7 @@ def eval_cases_mode(path: str) -> int:
 
 def fresh_results(cases: list, hashseed: str) -> dict:
     with tempfile.NamedTemporaryFile("w", suffix=".json", prefix="c13cases", delete=False) as fp:
-        json.dump({"cases": cases}, fp)
+        json.dump({"cases": cases, "listing_seed": int(hashseed) % 9973 + 1}, fp)
         path = fp.name
     try:
         res = isolate.fresh_python([SCRIPT, "--eval-cases", path], hashseed=hashseed, timeout=900)
@@ -621,11 +643,12 @@ def main() -> int:
         "faults_fired": {"adversarial_prng_stream_draws": probes.get("scripted_biased_prng_draws", 0),
                          "entropy_taps_armed_draws": agg["draws"] // 2,
                          "hash_seed_variation_draws": fresh_done,
+                         "shuffled_registry_directory_listing_draws": fresh_done,
                          "warm_process_draws": agg["draws"] // 2},
         "probes": probes,
         "components": {"real": ["schwifty (tree under test)", "rstr", "bundled registries", "pycountry"],
                        "stub": ["PRNG (seeded MT / ScriptedRandom with biases)", "entropy sources (tapped: global random state, "
-                                "Random() OS seeding, os.urandom, time.*)", "process and PYTHONHASHSEED (varied)"]},
+                                "Random() OS seeding, os.urandom, time.*)", "process and PYTHONHASHSEED (varied)", "directory listing order of the bundled registries in the fresh-interpreter leg (real contents served through SimFS, shuffled)"]},
         "violations_seen": agg["violation_count"],
         "tree_sha256": core.tree_digest(),
     }
